@@ -419,6 +419,23 @@ pub fn run_c20(a: &Args) {
             for h in handles { match h.join() { Ok(b) => { histories += 1; bad.extend(b); } Err(_) => bad.push(format!("concurrent parses with {nt} threads: a thread panicked")) } }
         }
     }
+    // concurrent parses of value-typed texts with array literals of different lengths (beyond and within the inline capacity)
+    {
+        use exmex::{parse_val, Express, Val};
+        let atexts: Vec<(&'static str, usize)> = vec![("[1,2,3,4,5]", 5), ("[1,2,3,4,5,6,7]", 7), ("[1,2,3]", 3), ("[1.5,2,3,4,5,6,7,8,9]", 9), ("[0,1,2,3,4]+[1,1,1,1,1]", 5), ("[1,2]", 2)];
+        let atexts = Arc::new(atexts);
+        let iters = if a.thorough { 4000 } else { 1200 };
+        let nt = 8;
+        let barrier = Arc::new(Barrier::new(nt));
+        let handles: Vec<_> = (0..nt).map(|tid| { let (b, at) = (barrier.clone(), atexts.clone()); std::thread::spawn(move || {
+            b.wait();
+            let mut bad: Vec<String> = vec![];
+            for it in 0..iters { let (text, len) = at[(it + tid) % at.len()];
+                match parse_val::<i32, f64>(text).and_then(|e| e.eval(&[])) { Ok(Val::Array(v)) => if v.len() != len && bad.len() < 3 { bad.push(format!("thread {tid}: {text} parsed concurrently has {} elements: {v:?}", v.len())); },
+                    other => if bad.len() < 3 { bad.push(format!("thread {tid}: {text} parsed concurrently gives {other:?}")); } } }
+            bad }) }).collect();
+        for h in handles { match h.join() { Ok(b) => { histories += 1; bad.extend(b); } Err(_) => bad.push("concurrent array parses: a thread panicked".into()) } }
+    }
     // histories across INSTANTIATIONS of the value type: an operator evaluated at Val<i32,_> first (where it overflows) and
     // at Val<i64,_> / Val<i128,_> afterwards must give the wider type's own result (no state shared between instantiations,
     // e.g. a table in a static of a generic function); literals folded at parse time and variables at evaluation time
@@ -649,6 +666,7 @@ pub fn run_c18v(a: &Args) {
         "x^2 if x + y > 1 else x", "x/y if x / y > 1.5 else y/x", "x*3 if x - 0.5 == y - 0.5 else x*5", "exp(x) if -x + 1 < y else ln(x+1)", "x^3 if 1 - x > y - 1 else x^2", "y*x if x * y - 0.3 != 0 else x",
         "x*x if x ^ 2 > y else y*y", "2*x if x - 1 > 0 else (3*x if y - x > 0.2 else 5*x)",
         // a piecewise expression as direct operand of the tightest operators of the value table (^ / %)
+        "x^1 if x > 0 else 2*x", "(x*y)^1.0 if x > y else x + y", "3 * (sin(x)^1 if x > 0 else x) + x", "x^0 + x if x > 0.5 else 0^x + y",
         "(x if x > 0 else -x)^3", "(3*x if x > 1 else x^2)^3", "x^(y if y > 0.5 else 2)", "(x if x > y else y)^y", "(x*x if x > 0.6 else x)/(y if y > 0.5 else 2)", "2^(x if x > 0.6 else 2*x)", "((x if x > 0.5 else 2*x)^2)^2"] { texts.push(t.to_string()); }
     for _ in 0..a.n { let ops = ["+", "-", "*", "/"]; let cmp = [">", "<", ">=", "<=", "!="][r.below(5)];
         let (l1, l2, r1) = (["x", "y", "0.4", "2"][r.below(4)], ["x", "y", "0.7", "1"][r.below(4)], ["x", "y", "0.5", "1.2"][r.below(4)]);
@@ -906,6 +924,43 @@ pub fn run_c06t(a: &Args) {
             Ok(Ok(())) => cases.push(C { note, ok: true, onote: String::new() }),
             Ok(Err(m)) => cases.push(C { note, ok: false, onote: m }),
             Err(_) => { hung += 1; cases.push(C { note, ok: false, onote: format!("parsing and evaluating did not return within {} s (hangs)", budget.as_secs()) }); }
+        }
+    }
+    // sessions of statement lines (assignments, re-assignments, queries; right-hand sides with variables are kept as
+    // expressions and evaluated when used): every query against a small reference that substitutes definitions into the text
+    {
+        use exmex::{line_2_statement_val, StatementsVal};
+        let mut r = Rng::new(a.seed ^ 0x57a7);
+        let mut sessions: Vec<Vec<String>> = vec![
+            vec!["x = 1", "y = 2", "x = 5", "x + y"], vec!["x = 1", "y = 2", "z = 3", "x = 5", "y", "x - y", "z * x"], vec!["a = 2", "b = a * 3", "a = 4", "b", "a + b"],
+            vec!["a = 1", "b = 2", "c = 3", "d = 4", "b = 20", "a", "b", "c", "d", "a = 10", "d - a"], vec!["p = 2", "q = p ^ 2", "r = q + p", "p = 3", "r", "q = 1", "r"]].into_iter().map(|v| v.into_iter().map(String::from).collect()).collect();
+        for _ in 0..(if a.thorough { 200 } else { 40 }) { let names = ["a", "b", "c", "d", "e"]; let mut defined: Vec<&str> = vec![]; let mut lines = vec![];
+            for _ in 0..4 + r.below(10) { let kind = r.below(4);
+                let expr = |r: &mut Rng, defined: &Vec<&str>| -> String { if defined.is_empty() || r.chance(1, 3) { format!("{}", 1 + r.below(9)) } else { let u = defined[r.below(defined.len())]; let w = defined[r.below(defined.len())]; format!("{u} {} {w} + {}", ["+", "-", "*"][r.below(3)], r.below(5)) } };
+                if kind < 3 || defined.is_empty() { let v = names[r.below(5)]; let e = expr(&mut r, &defined.iter().copied().filter(|d| *d != v).collect()); lines.push(format!("{v} = {e}")); if !defined.contains(&v) { defined.push(v); } }
+                else { lines.push(expr(&mut r, &defined)); } }
+            sessions.push(lines); }
+        for lines in sessions {
+            let res = std::panic::catch_unwind(|| -> Result<(), String> {
+                let mut st = StatementsVal::<i32, f64>::default();
+                let mut defs: Vec<(String, String)> = vec![];   // reference: name -> definition text (latest)
+                fn expand(t: &str, defs: &[(String, String)], depth: usize) -> String { if depth > 12 { return "(0/0)".into() } let mut out = String::new();
+                    for c in t.chars() { if let Some((_, d)) = defs.iter().find(|(n, _)| n.len() == 1 && n.starts_with(c)) { out.push('('); out.push_str(&expand(d, defs, depth + 1)); out.push(')'); } else { out.push(c); } } out }
+                for line in &lines {
+                    let leaked: &'static str = Box::leak(line.clone().into_boxed_str());
+                    let stm = line_2_statement_val::<i32, f64>(leaked).map_err(|e| format!("line {line:?} rejected: {e}"))?;
+                    match stm.var { Some(v) => { let rhs_text = line.split('=').nth(1).unwrap().trim().to_string();
+                            // a right-hand side without variables is stored as its value, one with variables as the expression
+                            let stored = if rhs_text.chars().any(|c| c.is_ascii_lowercase()) { rhs_text } else { format!("{}", exmex::eval_str::<f64>(&rhs_text).map_err(|e| e.to_string())?) };
+                            defs.retain(|(n, _)| n != v); defs.push((v.to_string(), stored)); st = st.insert(v, stm.rhs); }
+                        None => { // an error is a legitimate answer (definitions are substituted one level deep only); a value must be the right one
+                            let got = match stm.rhs.eval(&st) { Err(_) => continue, Ok(Val::Int(i)) => i as f64, Ok(Val::Float(f)) => f, Ok(other) => return Err(format!("query {line:?} gives {other:?}")) };
+                            let want = exmex::eval_str::<f64>(&expand(line, &defs, 0)).map_err(|e| format!("reference failed on {line:?}: {e}"))?;
+                            if !(got == want || (got - want).abs() <= 1e-9 * (1.0 + want.abs()) || (got.is_nan() && want.is_nan())) { return Err(format!("query {line:?} gives {got}, the definitions give {want}")) } } }
+                }
+                Ok(()) });
+            let (ok, onote) = match res { Ok(Ok(())) => (true, String::new()), Ok(Err(m)) => (false, m), Err(_) => (false, "a statement call panicked".into()) };
+            cases.push(C { note: format!("statement session {:?}", lines), ok, onote });
         }
     }
     std::fs::create_dir_all(&a.out).unwrap();
